@@ -828,7 +828,9 @@ func (w *c05World) exec(f []string) (string, []string, []string) {
 				} else {
 					body = tk.waAssertion(chal, st.webAuthn.Config.RPID, f[3] == "u")
 				}
-				w.asserts[key] = body
+				if k < len(w.chals) { // replays of an assertion over a real challenge are byte-identical
+					w.asserts[key] = body
+				}
 			}
 			bit := c05FlagU2F
 			if f[3] == "w" {
